@@ -5,7 +5,9 @@ import (
 	"errors"
 	"io"
 
-	"github.com/cenkalti/backoff/v4"
+	"reflect"
+	"strings"
+
 	"github.com/oneconcern/datamon/pkg/storage"
 
 	"verifharness/memstore"
@@ -22,9 +24,38 @@ type deadStore struct {
 
 var _ storage.Store = deadStore{}
 
+// deadErr is memstore.ErrCrashed dressed so that errors.As(err, **backoff.PermanentError) succeeds,
+// which is how backoff.Retry recognises an error it must not retry.  The backoff package is not
+// imported (that would make the go command rewrite the harness go.mod: the module is only an
+// indirect requirement there), its type is matched by name through reflection instead.
+type deadErr struct{ err error }
+
+func (e deadErr) Error() string { return e.err.Error() }
+func (e deadErr) Unwrap() error { return e.err }
+
+// As fills a **backoff.PermanentError target
+func (e deadErr) As(target interface{}) bool {
+	rv := reflect.ValueOf(target)
+	if rv.Kind() != reflect.Ptr || rv.IsNil() || rv.Elem().Kind() != reflect.Ptr {
+		return false
+	}
+	et := rv.Elem().Type().Elem()
+	if et.Kind() != reflect.Struct || et.Name() != "PermanentError" || !strings.Contains(et.PkgPath(), "cenkalti/backoff") {
+		return false
+	}
+	p := reflect.New(et)
+	f := p.Elem().FieldByName("Err")
+	if !f.IsValid() || !f.CanSet() {
+		return false
+	}
+	f.Set(reflect.ValueOf(&e.err).Elem())
+	rv.Elem().Set(p)
+	return true
+}
+
 func dead(err error) error {
 	if err != nil && errors.Is(err, memstore.ErrCrashed) {
-		return backoff.Permanent(err)
+		return deadErr{err}
 	}
 	return err
 }
